@@ -889,6 +889,13 @@ class WebSocketProtocol13(WebSocketProtocol):
             return
         except ValueError:
             gen_log.debug("Malformed WebSocket request received", exc_info=True)
+            if self.stream is None:
+                # The handshake response has not been sent yet (e.g. invalid
+                # permessage-deflate parameters): refuse the upgrade.
+                handler.clear_header("Sec-WebSocket-Protocol")
+                handler.set_status(400)
+                handler.finish("Malformed WebSocket request")
+                return
             self._abort()
             return
 
